@@ -137,6 +137,7 @@ Inductive op : Type :=
 | ORemoveModel (m : model)
 | OAddState (s : state) (sd : sdef)
 | OAddTransition (e : event) (t : trans)
+| ORemoveTransition (e : event) (src dst : option state)     (* remove_transition(trigger, source|'*', dest|'*') *)
 | OTrigger (m : model) (byname : bool) (e : event) (payload : nat)
 | ODispatch (e : event) (payload : nat)
 | OCopy.      (* the machine and all model objects are replaced by pickle.loads(pickle.dumps(..)) / copy.deepcopy(..):
@@ -278,6 +279,43 @@ Section Step.
               end in
     (inr None, regen_graphs (set_mc w1 (mc_set_events mc (add_trans_to (m_events mc) e t)))).
 
+  (* Machine.remove_transition / HierarchicalMachine.remove_transition (flat configuration): a transition is KEPT
+     if a source filter is given and it has another source, or a destination filter is given and it has
+     another destination (an internal transition has none).  When nothing is left the event is deleted and
+     `delattr(model, trigger)` runs for every REGISTERED model (may_<trigger> stays bound; it works by name);
+     graph classes rebuild the graphs.  (An unknown trigger: KeyError in core.py — written AttributeError here, not
+     generated; the hierarchical classes fail in delattr of the first model, or do nothing without models.) *)
+  Definition keep_trans (src dst : option state) (t : trans) : bool :=
+    (match src with Some s => negb (Nat.eqb (t_src t) s) | None => false end) ||
+    (match dst with
+     | Some d => negb (match t_dst t with Some x => Nat.eqb x d | None => false end)
+     | None => false
+     end).
+
+  Definition del_helper (h : helper) (l : list helper) : list helper :=
+    filter (fun x => negb (helper_eqb h x)) l.
+  Definition unbind_all (ms : list model) (h : helper) (f : model -> mobj) : model -> mobj :=
+    fun x => if mem_nat x ms then mkObj (o_state (f x)) (del_helper h (o_helpers (f x))) else f x.
+  Definition remove_key {A} (e : nat) (l : list (nat * A)) : list (nat * A) :=
+    filter (fun p => negb (Nat.eqb (fst p) e)) l.
+
+  Definition remove_transition (w : mworld) (e : event) (src dst : option state) : cres * mworld :=
+    let mc := w_mc w in
+    match lookup (m_events mc) e with
+    | None => (match w_models w with
+               | [] => if k_hsm k then inr None else inl AttributeError
+               | _ => inl AttributeError
+               end, w)
+    | Some ts =>
+        match filter (keep_trans src dst) ts with
+        | [] =>
+            (inr None,
+             regen_graphs (set_objs (set_mc w (mc_set_events mc (remove_key e (m_events mc))))
+                                    (unbind_all (w_models w) (HEv e) (w_obj w))))
+        | ts' => (inr None, regen_graphs (set_mc w (mc_set_events mc (set_assoc (m_events mc) e ts'))))
+        end
+    end.
+
   (* Machine._process at top level with a queue: the call returns True *)
   Definition qmap (r : exn + bool) : exn + bool :=
     match r with inr b => inr (if queued k then true else b) | inl e => inl e end.
@@ -357,6 +395,7 @@ Section Step.
     | ORemoveModel m => let '(r, w') := remove_model w m in ([], r, w')
     | OAddState s sd => let '(r, w') := add_state w s sd in ([], r, w')
     | OAddTransition e t => let '(r, w') := add_transition w e t in ([], r, w')
+    | ORemoveTransition e src dst => let '(r, w') := remove_transition w e src dst in ([], r, w')
     | OTrigger m bn e a => let '(b, w') := trigger_on w m bn e a in ([b], cres_of (b_res b), w')
     | ODispatch e a => let '(bs, r, w') := dispatch_loop (w_models w) w e a in (bs, cres_of r, w')
     | OCopy => ([], inr None, copy_world w)
